@@ -9,9 +9,14 @@ from verifkit.mon.probes import inside
 from verifkit.ref.symbolic import RefModel
 
 
-def build_sim(spec, theta, x0, t0=None, backend="lambda", pre_tau=None, epsilon=None):
+def build_sim(spec, theta, x0, t0=None, backend="lambda", pre_tau=None, epsilon=None, grown=None):
+    """grown=(rng, k): build the first k states, evaluate, then add the remaining states and processes (event order is kept by
+    permuting the spec in place beforehand - see maybe_grown)."""
     with contextlib.redirect_stdout(io.StringIO()):
-        m = G.build(spec, backend=backend)
+        if grown is not None:
+            m, _order = G.build_grown(spec, grown[0], theta, grown[1], backend=backend)
+        else:
+            m = G.build(spec, backend=backend)
     m.parameters = list(theta)
     m.initial_values = (list(x0), np.float64(0.0) if t0 is None else t0)
     if pre_tau is not None:
@@ -19,6 +24,22 @@ def build_sim(spec, theta, x0, t0=None, backend="lambda", pre_tau=None, epsilon=
     if epsilon is not None:
         m._epsilon = epsilon
     return m
+
+
+def maybe_grown(rng, spec, prob):
+    """With probability `prob` (when the spec allows it) returns k > 0 and re-orders spec['events'] in place so that the processes of
+    the first stage come first - the order the grown model will have; the reference V / rate vector then match event by event."""
+    if rng.random() >= prob:
+        return 0
+    k = G.growable(spec)
+    if not k:
+        return 0
+    need = spec["_need"]
+    order = [j for j, n in enumerate(need) if n < k] + [j for j, n in enumerate(need) if n >= k]
+    spec["events"] = [spec["events"][j] for j in order]
+    spec["_need"] = [need[j] for j in order]
+    spec["grown_after_states"] = k
+    return k
 
 
 def total_rate(ref, x, t, theta):
